@@ -60,6 +60,30 @@ def main():
     if len(fn) != 1:
         raise Unsupported("pygamma_cmd not found")
     fn = fn[0]
+    # shape understood by this translator: inside the loop over the input files, directly in its body,
+    #     cat_dissim = None ; if args.cat_dissim == <lit>: cat_dissim = <Class>(continuum.categories) [elif ...]
+    # (the categorical dissimilarity is rebuilt for every file from that file's categories). Anything else is unsupported.
+    loops = [n for n in ast.walk(fn) if isinstance(n, ast.For) and isinstance(n.iter, ast.Name) and n.iter.id == "input_files"]
+    if len(loops) != 1:
+        raise Unsupported("expected exactly one loop over input_files")
+    body = loops[0].body
+    idx_none = [k for k, st in enumerate(body) if isinstance(st, ast.Assign) and len(st.targets) == 1 and isinstance(st.targets[0], ast.Name)
+                and st.targets[0].id == "cat_dissim" and isinstance(st.value, ast.Constant) and st.value.value is None]
+    idx_if = [k for k, st in enumerate(body) if isinstance(st, ast.If) and isinstance(st.test, ast.Compare) and attr_of_args(st.test.left) == "cat_dissim"]
+    if len(idx_none) != 1 or len(idx_if) != 1 or idx_if[0] != idx_none[0] + 1:
+        raise Unsupported("the per-file construction `cat_dissim = None; if args.cat_dissim == ...` is not directly in the loop over the input files")
+    chain = body[idx_if[0]]
+    while True:
+        for b in chain.body:
+            if not (isinstance(b, ast.Assign) and isinstance(b.value, ast.Call) and len(b.value.args) == 1
+                    and ast.unparse(b.value.args[0]) == "continuum.categories"):
+                raise Unsupported("a cat_dissim branch does not build its dissimilarity from continuum.categories (line %d)" % b.lineno)
+        if len(chain.orelse) == 1 and isinstance(chain.orelse[0], ast.If):
+            chain = chain.orelse[0]
+        elif not chain.orelse:
+            break
+        else:
+            raise Unsupported("unexpected else branch in the cat_dissim chain")
     branches, comb, gamma, sampler_switch, seeded, readers = [], None, None, None, None, []
     for node in ast.walk(fn):
         if isinstance(node, ast.If):
@@ -116,9 +140,65 @@ def main():
             f.write(text)
 
 
+def frac_str(x):
+    from fractions import Fraction
+    f = Fraction(float(x))
+    return "(%d # %d)" % (f.numerator, f.denominator)
+
+
+def gen_consts():
+    """coq/gen/ConstGen.v: numeric constants of the source the theorems depend on (buffer sizes, confidence, precision levels, CST factors)"""
+    dsrc = ast.parse(open(os.path.join(REPO, "pygamma_agreement", "dissimilarity.py")).read())
+    c0 = g = None
+    for node in ast.walk(dsrc):
+        if isinstance(node, ast.FunctionDef) and node.name == "_get_all_valid_alignments":
+            for st in ast.walk(node):
+                if isinstance(st, ast.Assign) and len(st.targets) == 1 and isinstance(st.targets[0], ast.Name):
+                    nm = st.targets[0].id
+                    if nm == "chunk_size" and isinstance(st.value, ast.Constant) and c0 is None:
+                        c0 = st.value.value
+                    if nm == "add_size" and isinstance(st.value, ast.BinOp) and isinstance(st.value.op, ast.FloorDiv) \
+                            and isinstance(st.value.left, ast.Name) and st.value.left.id == "chunk_size" and isinstance(st.value.right, ast.Constant):
+                        g = st.value.right.value
+    if not isinstance(c0, int) or not isinstance(g, int):
+        raise Unsupported("chunk_size = <int> / add_size = chunk_size // <int> not found in _get_all_valid_alignments")
+    csrc = ast.parse(open(os.path.join(REPO, "pygamma_agreement", "continuum.py")).read())
+    conf, levels = None, None
+    for node in ast.walk(csrc):
+        if isinstance(node, ast.Assign) and len(node.targets) == 1 and isinstance(node.targets[0], ast.Name):
+            if node.targets[0].id == "confidence" and isinstance(node.value, ast.Constant):
+                conf = node.value.value
+            if node.targets[0].id == "PRECISION_LEVEL" and isinstance(node.value, ast.Dict):
+                levels = [(lit(k), lit(v)) for k, v in zip(node.value.keys, node.value.values)]
+    if conf is None or not levels:
+        raise Unsupported("confidence / PRECISION_LEVEL not found in continuum.py")
+    tsrc = ast.parse(open(os.path.join(REPO, "pygamma_agreement", "cst.py")).read())
+    factors = {}
+    for node in ast.walk(tsrc):
+        if isinstance(node, ast.ClassDef) and node.name == "CorpusShufflingTool":
+            for st in node.body:
+                if isinstance(st, ast.Assign) and isinstance(st.targets[0], ast.Name) and st.targets[0].id.endswith("_FACTOR") and isinstance(st.value, ast.Constant):
+                    factors[st.targets[0].id] = st.value.value
+    if set(factors) != {"SHIFT_FACTOR", "SPLIT_FACTOR", "FALSE_POS_FACTOR"}:
+        raise Unsupported("CST factors not found: %r" % (factors,))
+    out = ["(* GENERATED by harness/gen_tables.py from the current sources - do not edit. *)",
+           "From Coq Require Import List String NArith QArith.", "Import ListNotations.", "",
+           "(* dissimilarity.py, _get_all_valid_alignments: initial buffer capacity and growth divisor *)",
+           "Definition chunk_size : N := %d%%N." % c0, "Definition growth_divisor : N := %d%%N." % g,
+           "(* continuum.py, compute_gamma *)", "Definition confidence : Q := %s." % frac_str(conf),
+           "Definition precision_levels : list (string * Q) := [%s]." % "; ".join("(%s%%string, %s)" % (coq_str(k), frac_str(v)) for k, v in levels),
+           "(* cst.py, CorpusShufflingTool *)"] + ["Definition %s : Q := %s." % (k.lower(), frac_str(v)) for k, v in sorted(factors.items())]
+    text = "\n".join(out) + "\n"
+    outp = os.path.join(VERIF, "coq", "gen", "ConstGen.v")
+    if not os.path.exists(outp) or open(outp).read() != text:
+        with open(outp, "w") as f:
+            f.write(text)
+
+
 if __name__ == "__main__":
     try:
         main()
+        gen_consts()
     except Unsupported as e:
         sys.stderr.write("gen_tables: unsupported construct: %s\n" % e)
         sys.exit(3)
